@@ -2,7 +2,8 @@
 
 Substrate: two real `SecsIProtocol` endpoints (host and equipment) on the real TcpClientConnection /
 TcpServerConnection classes (SECS-I over TCP, `SecsITcpSettings`), simulated sockets, deterministic scheduler
-(vf.detsim). A controller-driven LINE ACTOR (vf.secsirig.Line) carries every byte between the two endpoints, keeps the
+(vf.detsim); a quarter of the generated cases runs both endpoints on the real `SerialConnection`
+(secsgem/common/serial_connection.py, `SecsISettings`) over simulated serial ports (vf.detsim.serialsim, vf.serialrig) instead. A controller-driven LINE ACTOR (vf.secsirig.Line) carries every byte between the two endpoints, keeps the
 line transcript, re-chunks every block by a generated plan (uniform chunk size down to single bytes, explicit cuts after
 the length byte / inside the header / before and between the checksum bytes, virtual delays, a generated number of
 scheduling steps granted to the endpoints between two chunks) and applies the fault plan: ONE byte of ONE block
@@ -329,6 +330,8 @@ def case_strategy(draw):
     big_at = draw(st.integers(0, 11))  # at most one 10-block message per case, in a quarter of the cases
     msgs = [draw(message_strategy(i, allow_big=(i == big_at))) for i in range(n_before + (1 if with_fault else 0))]
     case = {"a_host": a_host, "dev": dev, "sched": sched, "msgs": msgs}
+    if draw(st.integers(0, 3)) == 0:
+        case["serial"] = 1  # both endpoints on the real SerialConnection (simulated serial ports) instead of SECS-I over TCP
     ref = resolve(case)
     for m, r in zip(msgs, ref):
         m["plan"] = draw(plan_strategy([len(fr) for fr in r["frames"]]))
@@ -416,6 +419,15 @@ def _show(ev):
     return [(s, d.hex() if len(d) <= 4 else f"{d[:3].hex()}..({len(d)} bytes)") for s, d in ev]
 
 
+def _line_cls(case):
+    """Substrate of a case: SECS-I over TCP (default) or the real SerialConnection on simulated serial ports."""
+    if case.get("serial"):
+        from vf import serialrig
+
+        return serialrig.SerialLine
+    return secsirig.Line
+
+
 def _build_call(ep, r):
     import secsgem.secs.functions
     import secsgem.secsi.header
@@ -451,7 +463,7 @@ def run_case(case, obs=None):
         if fault["pos"] == 0:
             obs["upward_alternatives"] = 255 - frame[0]
     with make_world(case.get("sched", {})) as w:
-        line = secsirig.Line(w, a_is_host=bool(case["a_host"]), dev_a=case["dev"][0], dev_b=case["dev"][1])
+        line = _line_cls(case)(w, a_is_host=bool(case["a_host"]), dev_a=case["dev"][0], dev_b=case["dev"][1])
         if not line.connect():
             return Failure("setup-failed", case, w.sim.blocked_report(), "both endpoints connected to the line")
         disturbed = False  # True from the faulted message's NAK on
@@ -598,6 +610,7 @@ def classify(case, obs):
     nblocks = [len(r["frames"]) for r in ref]
     for n in nblocks:
         cls.append("blocks:" + ("1" if n == 1 else "2" if n == 2 else "3" if n == 3 else "4-9" if n < 10 else ">=10"))
+    cls.append("substrate:serial-connection" if case.get("serial") else "substrate:secs-i-over-tcp")
     for r in ref:
         sender_is_host = case["a_host"] == (r["m"]["from"] == "A")
         cls.append("dir:host->equipment" if sender_is_host else "dir:equipment->host")
@@ -714,7 +727,7 @@ def run_pair(case, obs=None):
     msgs = [{"from": sender, "via": "message", "kind": "raw", "n": n, "fill": (pr["fill"] + 17 * i) & 0xFF, "sf": [1, 1], "dev": 1, "r": 0, "w": 0, "sys": 0x9000 + i, "plan": {}} for i, n in enumerate(pr["sizes"])]
     ref = resolve({"msgs": msgs, "a_host": case["a_host"], "dev": case["dev"], "sched": case.get("sched", {})})
     with make_world(case.get("sched", {})) as w:
-        line = secsirig.Line(w, a_is_host=bool(case["a_host"]), dev_a=case["dev"][0], dev_b=case["dev"][1])
+        line = _line_cls(case)(w, a_is_host=bool(case["a_host"]), dev_a=case["dev"][0], dev_b=case["dev"][1])
         if not line.connect():
             return Failure("setup-failed", case, w.sim.blocked_report(), "both endpoints connected to the line")
         ep = line.ep(sender)
@@ -901,7 +914,7 @@ def run_rush(case, obs=None):
     ref = resolve({"msgs": msgs, "a_host": case["a_host"], "dev": case["dev"], "sched": case.get("sched", {})})
     cls = obs.setdefault("classes", []) if obs is not None else []
     with make_world(case.get("sched", {})) as w:
-        line = secsirig.Line(w, a_is_host=bool(case["a_host"]), dev_a=case["dev"][0], dev_b=case["dev"][1])
+        line = _line_cls(case)(w, a_is_host=bool(case["a_host"]), dev_a=case["dev"][0], dev_b=case["dev"][1])
         if not line.connect():
             return Failure("setup-failed", case, w.sim.blocked_report(), "both endpoints connected to the line")
         ep = line.ep(sender)
